@@ -185,11 +185,12 @@ LINEAR_SRC = """if len(self) < 2:
 if len(self) == 2:
     return True
 tol = np.abs(1.0 - np.cos(angle_tol.to('rad')))
-vec0 = self.nvector(0, 1)
-for atom in self[2:]:
-    vec = atom.coord - self[0].coord
-    cos_theta = np.dot(vec, vec0) / np.linalg.norm(vec)
-    if np.abs(np.abs(cos_theta) - 1) > tol:
+coords = np.array([atom.coord for atom in self], dtype=float)
+for i in range(len(self)):
+    vecs = np.delete(coords, i, axis=0) - coords[i]
+    vecs /= np.linalg.norm(vecs, axis=1)[:, np.newaxis]
+    cos_thetas = np.matmul(vecs, vecs.T)
+    if np.any(np.abs(np.abs(cos_thetas) - 1) > tol):
         return False
 return True"""
 
